@@ -583,6 +583,9 @@ func normPanic(p string) string {
 	if i := strings.Index(p, "0x"); i >= 0 {
 		p = p[:i]
 	}
+	if i := strings.Index(p, " at "); i >= 0 {
+		p = p[:i]
+	}
 	if len(p) > 100 {
 		p = p[:100]
 	}
@@ -632,6 +635,7 @@ type bfsState struct {
 	depth    int
 	done     bool
 	states   int64
+	evals    int64
 }
 
 type workerCtx struct {
@@ -701,6 +705,7 @@ func expandLevel(r *core.Run, st *bfsState, workers []*workerCtx) bool {
 		trans += ltrans
 		mu.Unlock()
 	})
+	st.evals += total
 	r.Transitions(trans)
 	r.Traces(trans)
 	r.Add("hist_transitions_outside_model_domain", skipped)
@@ -838,15 +843,18 @@ func runHistories(r *core.Run, kinds []*wkind) {
 	}
 	bc := map[string]interface{}{}
 	var stateCounts = map[string]int64{}
+	var evalCounts = map[string]int64{}
 	for _, st := range states {
 		bc[st.wk.name] = bounds[st.wk.name]
 		stateCounts[st.wk.name] = st.states
+		evalCounts[st.wk.name] = st.evals
 		if bounds[st.wk.name] < r.Pick(st.wk.depthQ, st.wk.depthT) && bounds[st.wk.name] != 99 {
 			complete = false
 		}
 	}
 	r.Set("hist_depth_completed", bc)
 	r.Set("hist_states_per_kind", stateCounts)
+	r.Set("hist_histories_per_kind", evalCounts)
 	if !complete {
 		r.Set("hist_complete", false)
 	} else {
